@@ -292,6 +292,34 @@ class PathM:
     def exists(self):
         return self._name in self.fs.files
 
+    def open(self, mode="r", **k):
+        if any(c in mode for c in "wax+"):
+            if "w" in mode:
+                self.fs.files[self._name] = FileState()
+            else:
+                self.fs.get(self._name)     # created when missing
+        elif self._name not in self.fs.files:
+            raise ModelFault(f"open('{self._name}'): no such file")
+        me = self
+
+        class CM:
+            def __enter__(s):
+                return NS("file", write=lambda *a: None,
+                          read=lambda *a: "", close=lambda: None)
+
+            def __exit__(s, *a):
+                pass
+        return CM()
+
+    def touch(self, *a, **k):
+        self.fs.get(self._name)
+
+    def unlink(self, missing_ok=False):
+        if self._name not in self.fs.files and not missing_ok:
+            raise ModelFault(f"unlink of '{self._name}', which does not "
+                             f"exist")
+        self.fs.files.pop(self._name, None)
+
     def rename(self, other):
         if self._name not in self.fs.files:
             raise ModelFault(f"rename of '{self._name}' which was never "
@@ -316,7 +344,11 @@ class PathM:
 
 
 class FileState:
+    summaries_fresh = staticmethod(lambda: True)
+
     def __init__(self):
+        self.used_attrs = []
+        self.at_open = {}
         self.events = {}
         self.logs = []
         self.tables = []
@@ -331,6 +363,69 @@ class FS:
 
     def get(self, path):
         return self.files.setdefault(str(path), FileState())
+
+
+def writer_refreshes_summaries(repo):
+    """RTDCWriter.write_ndarray keeps the min / max / mean attributes of a
+    scalar dataset up to date on *every* append (no return between the
+    store of the data and the assignment of the attributes)"""
+    f = repo.func("dclab/rtdc_dataset/writer.py", "RTDCWriter.write_ndarray")
+    stores = [n for n in walk(f) if isinstance(n, ast.Assign) and isinstance(
+        n.targets[0], ast.Subscript) and isinstance(
+        n.targets[0].value, ast.Name) and isinstance(
+        n.targets[0].slice, ast.Slice)]
+    attrs = [n for n in walk(f) if isinstance(n, ast.Assign) and isinstance(
+        n.targets[0], ast.Subscript) and isinstance(
+        n.targets[0].value, ast.Attribute)
+        and n.targets[0].value.attr == "attrs"]
+    if not stores or not attrs:
+        raise AnalysisError("RTDCWriter.write_ndarray: data store / summary "
+                            "attributes not recognised (needed because join "
+                            "reads a summary attribute)")
+    first_store = min(s.lineno for s in stores)
+    last_attr_ = max(a.lineno for a in attrs)
+    rets = [n for n in walk(f) if isinstance(n, ast.Return)
+            and first_store < n.lineno < last_attr_]
+    return not rets
+
+
+class AttrsM:
+    """summary attributes (min / max / mean) of a stored dataset"""
+
+    def __init__(self, st, feat, values):
+        self.st, self.feat, self.values = st, feat, values
+
+    def _value(self, key):
+        fresh = self.st.summaries_fresh()
+        vals = self.values if fresh else self.st.at_open.get(self.feat, [])
+        self.st.used_attrs.append((self.feat, key, fresh))
+        if not vals:
+            raise KeyError(key)
+        if key == "max":
+            return max(vals)
+        if key == "min":
+            return min(vals)
+        if key == "mean":
+            return sum(vals) / len(vals)
+        raise KeyError(key)
+
+    def __getitem__(self, key):
+        return self._value(key)
+
+    def get(self, key, default=None):
+        try:
+            return self._value(key)
+        except KeyError:
+            return default
+
+    def __contains__(self, key):
+        return key in ("min", "max", "mean")
+
+
+class StoredArr(NumArr):
+    def __getitem__(self, k):
+        r = NumArr.__getitem__(self, k)
+        return r
 
 
 class H5M:
@@ -354,12 +449,19 @@ class H5M:
             if not isinstance(piece, NumArr):
                 raise MiniError(f"stored '{f}' is not numeric in the model")
             flat += piece.v
-        return NumArr(flat)
+        arr = StoredArr(flat)
+        arr.attrs = AttrsM(self.st, f, flat)
+        return arr
 
 
 class HWM:
     def __init__(self, st):
         self.st = st
+        # summary attributes as they are when the file is opened
+        st.at_open = {}
+        for f, pieces in st.events.items():
+            if all(isinstance(p, NumArr) for p in pieces):
+                st.at_open[f] = [v for p in pieces for v in p.v]
         self.h5file = H5M(st)
         self.mode = "append"
         self.path = "temp"
@@ -643,7 +745,7 @@ class DSJ:
     """one input of join"""
 
     def __init__(self, name, date, tm, run, innate, anc, fs, fr=2000.,
-                 n=3, ido=None):
+                 n=3, ido=None, with_ts=False):
         self.name = name
         self.fs = fs
         self.n = n
@@ -656,6 +758,9 @@ class DSJ:
              "imaging": {"frame rate": fr}}, name)
         self.logs = {"log": [f"log of {name}"], "sh-warnings": [f"w {name}"]}
         self.tables = {"tab": Opaque(f"table of {name}")}
+        if with_ts:
+            # unix time of the acquisition start (with its fraction)
+            self.config["experiment"]["timestamp"] = self.stamp()
         self.num = {
             "time": NumArr([0.5 * i for i in range(n)]),
             "frame": NumArr([1000 * i + 7 for i in range(n)]),
@@ -709,6 +814,8 @@ class DSJ:
 def run_join(repo, specs, order):
     """specs: {name: kwargs of DSJ}; order: names as given by the caller"""
     fs = FS()
+    FileState.summaries_fresh = staticmethod(
+        lambda: _summaries_fresh(repo))
     wmod = Warnings()
     datasets = {}
     for name, kw in specs.items():
@@ -728,6 +835,16 @@ def run_join(repo, specs, order):
     if "out.rtdc" not in fs.files:
         raise ModelFault("no file at the output path after join")
     return fs.files["out.rtdc"], datasets, wmod
+
+
+_FRESH = {}
+
+
+def _summaries_fresh(repo):
+    key = id(repo)
+    if key not in _FRESH:
+        _FRESH[key] = writer_refreshes_summaries(repo)
+    return _FRESH[key]
 
 
 def chrono(datasets, order):
@@ -864,10 +981,10 @@ BASE = ["area_um", "deform", "frame", "index_online", "time"]
 
 
 def spec(date="2020-01-01", tm="12:00:00", run=1, innate=None, anc=(),
-         fr=2000., ido=None):
+         fr=2000., ido=None, with_ts=False):
     return dict(date=date, tm=tm, run=run,
                 innate=list(innate if innate is not None else BASE),
-                anc=list(anc), fr=fr, ido=ido)
+                anc=list(anc), fr=fr, ido=ido, with_ts=with_ts)
 
 
 def r93_r94(ctx, repo):
@@ -882,8 +999,16 @@ def r93_r94(ctx, repo):
         except ModelFault as e:
             return {c: f"inputs {order}: {e}" for c in clauses}
         out = {}
+        stale = sorted({f"{ft}.attrs['{k}']" for ft, k, fresh
+                        in st.used_attrs if not fresh})
         for c in clauses:
             m = judge_join(st, datasets, order, c)
+            if m is not None and stale and c in (
+                    "index_online", "time", "frame"):
+                m += (f" – the value comes from the summary attribute "
+                      f"{', '.join(stale)}, which the writer refreshes only "
+                      f"when the file is closed, not from the data of the "
+                      f"file")
             out[c] = None if m is None else f"inputs {order}: {m}"
         return out
 
@@ -913,6 +1038,26 @@ def r93_r94(ctx, repo):
     for k in ("time", "frame", "index_online", "pass-through", "logs"):
         ctx.ob("R9.3", acc[k] is None, texts[k] if acc[k] is None
                else acc[k], node=f, label=f"join {k}")
+    # --- inputs that carry a unix timestamp besides date / time: the start
+    # instant of an input is one value, its fraction counted once
+    tacc = {}
+    ts3 = {"a": spec(tm="12:00:00.25", with_ts=True),
+           "b": spec(tm="12:00:10.75", with_ts=True, fr=1000.),
+           "c": spec(date="2020-01-02", tm="00:00:01.50", with_ts=True)}
+    for order in (["a", "b"], ["a", "b", "c"], ["c", "a", "b"]):
+        merge(tacc, case(ts3, order, ["order", "time", "frame"]))
+    mixed = {"a": spec(tm="12:00:00.25", with_ts=True),
+             "b": spec(tm="12:00:10.75")}
+    merge(tacc, case(mixed, ["a", "b"], ["order", "time", "frame"]))
+    bad = tacc.get("order") or tacc.get("time") or tacc.get("frame")
+    ctx.ob("R9.3", bad is None,
+           "inputs with experiment:timestamp (and fractional start times): "
+           "the start instant of every input is formed once, offsets are "
+           "exact" if bad is None else
+           bad + " – the start instant of an input is not formed once "
+           "(e.g. the fractional seconds are added to a value that already "
+           "contains them)", node=f,
+           label="join offsets with timestamps present")
     # --- feature intersection
     facc = {"features": acc["features"]}
     full = ["area_cvx", "area_msd", "area_ratio", "deform", "time", "frame",
@@ -1153,7 +1298,7 @@ def run(ctx):
     ctx.rule("R9.2", "split: the exported masks partition the events in "
              "order, ceil(N/S) parts of at most S events", minimum=7)
     ctx.rule("R9.3", "join: common features, continuous time / frame / "
-             "index_online, pass-through, logs of every source", minimum=7)
+             "index_online, pass-through, logs of every source", minimum=8)
     ctx.rule("R9.4", "join: chronological order for any given order, incl. "
              "fractional seconds; ties keep the given order", minimum=3)
     r91(ctx, repo)
@@ -1453,5 +1598,25 @@ TWINS = list(TWINS) + [
     ("tdms start: modification time in a local", TDMS,
      ("        tse = self.path.stat().st_mtime\n",
       "        mtime = self.path.stat().st_mtime\n        tse = mtime\n")),
+]
+
+
+_FRAC = ("            if len(etime) > 8:\n"
+         "                # floating point time stored as well (HH:MM:SS.SS)\n"
+         "                t_offsets[ii] += float(etime[8:])\n")
+_TS = ('            tstamp = dsb.config["experiment"].get("timestamp")\n'
+       "            if tstamp:\n"
+       "                t_offsets[ii] = tstamp\n")
+
+MUTANTS = list(MUTANTS) + [
+    ("join: timestamp preferred, fraction of the time added on top (seeded)",
+     JOIN, (_FRAC, _TS + _FRAC), "R9.3"),
+    ("join: fractional seconds added twice", JOIN,
+     (_FRAC, _FRAC + _FRAC), "R9."),
+]
+
+TWINS = list(TWINS) + [
+    ("join: timestamp replaces the parsed start instant as a whole", JOIN,
+     (_FRAC, _FRAC + _TS)),
 ]
 
